@@ -519,6 +519,11 @@ func (r *Runner) Execute(obj interface{}) (res Result) {
 		}
 		res.Trace = r.Trace
 		res.Drift = r.Drift()
+		if res.Drift != "" && res.Panic == nil {
+			// every comparison of results looks at Panic: no check can miss that
+			// what the host kept was changed under it
+			res.Panic = "(no panic, but as bad) " + res.Drift
+		}
 		func() {
 			defer func() { _ = recover() }()
 			var gerr error
